@@ -55,7 +55,7 @@ func near(a [3]byte, c int, tol int) bool {
 	return true
 }
 
-func col(c int) string { return fmt.Sprintf("#%06x", c) }
+func col(c int) string     { return fmt.Sprintf("#%06x", c) }
 func rgb(a [3]byte) string { return fmt.Sprintf("#%02x%02x%02x", a[0], a[1], a[2]) }
 
 func clamp2(v int) int {
